@@ -27,6 +27,7 @@ VERIF = os.path.dirname(HERE)
 SEEDED = os.path.join(VERIF, "seeded")
 PY = "/venv/bin/python"
 ALL = ["C03", "C04", "C09", "C12", "C14", "C15"]
+FIRST = False
 
 
 def sh(cmd, **kw):
@@ -118,7 +119,8 @@ def eval_one(sid, props, tier, workers):
         for p in props or [meta["property"]]:
             t0 = time.time()
             r = sh([PY, os.path.join(VERIF, "check.py"), "--property", p, "--tier", tier,
-                    "--no-evidence", "--workers", str(workers)], env=env, timeout=6 * 3600)
+                    "--no-evidence", "--workers", str(workers)] + (["--first"] if FIRST else []),
+                   env=env, timeout=6 * 3600)
             cls = [l.split()[2] for l in r.stdout.splitlines() if l.startswith("violation class")]
             res["checks"][p] = {"exit": r.returncode, "classes": cls[:5],
                                 "wall": round(time.time() - t0, 1)}
@@ -141,7 +143,10 @@ def main():
     ap.add_argument("--tier", default="quick")
     ap.add_argument("--jobs", type=int, default=3)
     ap.add_argument("--workers", type=int, default=4)
+    ap.add_argument("--first", action="store_true", help="stop each check at its first violation")
     a = ap.parse_args()
+    global FIRST
+    FIRST = a.first
     if a.add:
         return add(a.add, a.id, a.prop, a.needs)
     if a.eval is not None:
